@@ -25,7 +25,7 @@ CORE_OPTS = [("null", "null"), ("null", "notnull"), ("default", "d1"), ("default
 
 def consts(**kw):
     d = dict(ColNames='<<"a","b","c","d">>', MaxCols=3, TypeForms='{"vc"}', FocusAt=2, Opts=optset(*CORE_OPTS), MaxOpts=4,
-             ItemKinds="{}", ItemCols='{<<"a">>}', MaxItems=0, Refs='{"r1"}', Variant='"shipped"', WithHist="FALSE")
+             ItemKinds="{}", ItemCols='{<<"a">>}', MaxItems=0, Refs='{"r1"}', CheckIds='{"e1","e2"}', Variant='"shipped"', WithHist="FALSE")
     d.update(kw)
     return d
 
@@ -67,29 +67,41 @@ def spec_tags(b):
             _, _, od, ou = T.REFS[rid]
             if any(x and " " in x for x in (od, ou)):
                 tags.add("twoword_inline" if a["a"] == "opt" else "twoword_table")
+        eid = a["it"]["e"] if a["a"] == "item" else (a["o"]["v"] if a["a"] == "opt" and a["o"]["g"] == "check" else None)
+        if eid in T.CHECK_TAGS and a["a"] == "item":
+            tags.add(T.CHECK_TAGS[eid])
     return tags
 
 
-def compare(V, behs, seeds, what, keep, extra_tables=False, ctor=None, run=None):
-    """keep: function(projection dict) -> the part of the projection this property pins"""
+NEIGH = {"t0": ["p int", "q varchar(5)"], "t2": ["r int NOT NULL", "s int"], "t3": ["u text NULL"]}
+
+
+def compare(V, behs, seeds, what, keep, extra_tables=False, ctor=None, run=None, layouts=("oneline",)):
+    """keep: function(projection dict) -> the part of the projection this property pins.
+    Each behaviour is rendered once per seed; the seed also selects the concrete column names, the layout (from
+    `layouts`) and - with extra_tables - the canonical neighbour tables written before / after it."""
     tasks, meta = [], []
     for b in behs:
         for sd in seeds:
-            ddl = T.render(b["hist"], sd)
-            pre = post = ""
-            if extra_tables:
-                k = (sd + len(b["hist"])) % 3
-                if k >= 1:
-                    pre = "CREATE TABLE t0 (p int, q varchar(5));\n"
-                if k == 2:
-                    post = "\nCREATE TABLE t2 (r int NOT NULL, s int);"
-            tasks.append((pre + ddl + post + "\n", ctor or {}, run or {}))
-            meta.append((b, sd, bool(pre), bool(post)))
+            h = sd + len(b["hist"]) + sum(len(str(a)) for a in b["hist"])
+            nm = T.name_map(sd + h % 3)
+            layout = layouts[h % len(layouts)]
+            before, after = [], []
+            if layout == "noterm":
+                before, after = ["t0"], ["t2", "t3"]          # the next CREATE is what ends a statement
+            elif extra_tables:
+                k = h % 3
+                before = ["t0"] if k >= 1 else []
+                after = ["t2"] if k == 2 else []
+            stmts = [T.lay_out(n, NEIGH[n], layout) for n in before] + [T.render(b["hist"], sd, nm=nm, layout=layout)] + \
+                    [T.lay_out(n, NEIGH[n], layout) for n in after]
+            tasks.append(("\n".join(stmts) + "\n", ctor or {}, run or {}))
+            meta.append((b, sd, nm, before, after, layout))
     outs, nuniq = C.parse_many(tasks)
     nbad = 0
-    for (b, sd, pre, post), tk, o in zip(meta, tasks, outs):
-        exp = keep(T.expected(b["obs"], b["open"]))
-        want_names = (["t0"] if pre else []) + ["t1"] + (["t2"] if post else [])
+    for (b, sd, nm, before, after, layout), tk, o in zip(meta, tasks, outs):
+        exp = keep(T.expected(b["obs"], b["open"], nm))
+        want_names = before + ["t1"] + after
         paths, got = [], None
         if o[0] != "ok":
             paths, got = ["raised"], list(o[:3])
@@ -98,17 +110,19 @@ def compare(V, behs, seeds, what, keep, extra_tables=False, ctor=None, run=None)
             if [t["table_name"] for t in tabs] != want_names:
                 paths, got = ["tables"], [t.get("table_name") for t in tabs]
             else:
-                raw = tabs[1 if pre else 0]
-                got = keep(T.project_table(raw, b["open"]))
+                raw = tabs[len(before)]
+                got = keep(T.project_table(raw, b["open"], nm))
                 paths = C.diff_paths(exp, got)
-                if pre and [c["name"] for c in tabs[0]["columns"]] != ["p", "q"]:
-                    paths.append("neighbour_before")
-                if post and [(c["name"], c["nullable"]) for c in tabs[-1]["columns"]] != [("r", False), ("s", True)]:
-                    paths.append("neighbour_after")
+                for t in tabs:
+                    n = t["table_name"]
+                    if n in NEIGH and [c["name"] for c in t["columns"]] != [x.split()[0] for x in NEIGH[n]]:
+                        paths.append("neighbour_" + n)
+                if "t2" in after and [c["nullable"] for c in tabs[len(before) + 1]["columns"]] != [False, True]:
+                    paths.append("neighbour_t2")
         if paths:
             nbad += 1
-            V.mismatch({"what": what, "ddl": tk[0], "ctor": tk[1], "run": tk[2], "abstract": abstract(b), "paths": paths[:8],
-                        "expected": exp, "observed": got, "spec_dev": sorted(spec_tags(b))},
+            V.mismatch({"what": what, "ddl": tk[0], "ctor": tk[1], "run": tk[2], "abstract": abstract(b), "paths": paths[:8], "layout": layout,
+                        "names": nm, "open": list(b["open"]), "expected": exp, "observed": got, "spec_dev": sorted(spec_tags(b))},
                        tags=spec_tags(b), paths=[re.sub(r"\.\d+", ".*", p) for p in paths])
     return len(tasks), nuniq, nbad
 
@@ -122,7 +136,7 @@ def replay_file(path, keep):
         if o[0] == "ok":
             tabs = [e for e in o[1] if e.get("table_name") == "t1"]
             if tabs:
-                ok = keep(T.project_table(tabs[0], ())) == v["expected"]
+                ok = keep(T.project_table(tabs[0], v.get("open", ()), v.get("names"))) == v["expected"]
         print(("passes now  " if ok else "STILL-FAILS ") + v["ddl"].replace("\n", " | ")[:220])
         bad += not ok
     return 1 if bad else 0
